@@ -41,21 +41,22 @@ type Failure struct {
 
 // Report is a worker's partial result (merged by the parent).
 type Report struct {
-	Evaluations int64             `json:"evaluations"`
-	Distinct    int64             `json:"distinct"`
-	Nontrivial  int64             `json:"nontrivial"`
-	Outcomes    map[string]int64  `json:"outcomes"`
-	Samples     []string          `json:"samples"`
-	OutSamples  map[string]string `json:"out_samples"`
-	Failures    []Failure         `json:"failures"`
-	FailCount   map[string]int64  `json:"fail_count"` // by signature
-	Counters    map[string]int64  `json:"counters"`
-	MaxCounters map[string]int64  `json:"max_counters"`
-	Notes       map[string]string `json:"notes"`
-	Incomplete  []string          `json:"incomplete"`
-	Died        string            `json:"died,omitempty"`
-	Rule        string            `json:"rule"`
-	Assumptions []string          `json:"assumptions"`
+	Evaluations int64                      `json:"evaluations"`
+	Distinct    int64                      `json:"distinct"`
+	Nontrivial  int64                      `json:"nontrivial"`
+	Outcomes    map[string]int64           `json:"outcomes"`
+	Samples     []string                   `json:"samples"`
+	OutSamples  map[string]string          `json:"out_samples"`
+	Failures    []Failure                  `json:"failures"`
+	FailCount   map[string]int64           `json:"fail_count"` // by signature
+	Counters    map[string]int64           `json:"counters"`
+	MaxCounters map[string]int64           `json:"max_counters"`
+	Notes       map[string]string          `json:"notes"`
+	Sets        map[string]map[string]bool `json:"sets"`
+	Incomplete  []string                   `json:"incomplete"`
+	Died        string                     `json:"died,omitempty"`
+	Rule        string                     `json:"rule"`
+	Assumptions []string                   `json:"assumptions"`
 }
 
 // Env is handed to the check's run function.
@@ -222,6 +223,16 @@ func (e *Env) Max(name string, n int64) {
 	if n > e.rep.MaxCounters[name] {
 		e.rep.MaxCounters[name] = n
 	}
+	e.mu.Unlock()
+}
+
+// AddSet adds member to a named set; evidence reports the size of the union over all workers.
+func (e *Env) AddSet(name, member string) {
+	e.mu.Lock()
+	if e.rep.Sets[name] == nil {
+		e.rep.Sets[name] = map[string]bool{}
+	}
+	e.rep.Sets[name][member] = true
 	e.mu.Unlock()
 }
 
@@ -406,6 +417,7 @@ func newEnv(id, level, tier string, seed int64) *Env {
 	e.rep.Counters = map[string]int64{}
 	e.rep.MaxCounters = map[string]int64{}
 	e.rep.Notes = map[string]string{}
+	e.rep.Sets = map[string]map[string]bool{}
 	return e
 }
 
@@ -541,6 +553,14 @@ func parent(id, level, tier string, seed int64, run func(e *Env)) int {
 		}
 		for k, v := range r.rep.Notes {
 			m.Notes[k] = v
+		}
+		for k, set := range r.rep.Sets {
+			if m.Sets[k] == nil {
+				m.Sets[k] = map[string]bool{}
+			}
+			for x := range set {
+				m.Sets[k][x] = true
+			}
 		}
 		if r.rep.Rule != "" {
 			total.Rule, total.Assumptions = r.rep.Rule, r.rep.Assumptions
@@ -718,6 +738,9 @@ func writeEvidence(total *Env, start time.Time, violations int64, hit map[string
 	}
 	for k, v := range m.Notes {
 		cov[k] = v
+	}
+	for k, set := range m.Sets {
+		cov[k] = len(set)
 	}
 	if len(hit) > 0 {
 		cov["known_findings_hit"] = hit
